@@ -14,33 +14,44 @@ EXTENDS Naturals, Sequences, TLC, SequencesExt
 CONSTANTS MsgLens,   \* sequence of message lengths (document bytes; the terminator is added)
           K,         \* capacity of the kernel socket buffer
           AllowCancel
-VARIABLES next, wbuf, fut, pipe, rcvd
-vars == <<next, wbuf, fut, pipe, rcvd>>
+VARIABLES next, wbuf, fut, pipe, rcvd,
+          closed,   \* the writer's end was closed (possibly with unread data of the other direction behind it)
+          ended     \* the reader was told that nothing more comes (end of stream or reset)
+vars == <<next, wbuf, fut, pipe, rcvd, closed, ended>>
 \* a byte is <<message index, offset>>; offset = len + 1 is the NUL
 BytesOf(i) == [k \in 1..(MsgLens[i] + 1) |-> <<i, k>>]
 RECURSIVE All(_)
 All(i) == IF i > Len(MsgLens) THEN <<>> ELSE BytesOf(i) \o All(i + 1)
-Init == next = 1 /\ wbuf = <<>> /\ fut = [on |-> FALSE, sent |-> 0] /\ pipe = <<>> /\ rcvd = <<>>
+Init == next = 1 /\ wbuf = <<>> /\ fut = [on |-> FALSE, sent |-> 0] /\ pipe = <<>> /\ rcvd = <<>> /\ closed = FALSE /\ ended = FALSE
 \* send_call = enqueue + flush; enqueue appends behind whatever is still in the buffer
-SendStart == /\ ~fut.on /\ next <= Len(MsgLens)
+SendStart == /\ ~fut.on /\ next <= Len(MsgLens) /\ ~closed
              /\ wbuf' = wbuf \o BytesOf(next) /\ next' = next + 1
-             /\ fut' = [on |-> TRUE, sent |-> 0] /\ UNCHANGED <<pipe, rcvd>>
+             /\ fut' = [on |-> TRUE, sent |-> 0] /\ UNCHANGED <<pipe, rcvd, closed, ended>>
 \* the transport's write-all loop: one partial write accepted by the kernel
 KernelWrite == /\ fut.on /\ fut.sent < Len(wbuf) /\ Len(pipe) < K
                /\ \E n \in 1..(K - Len(pipe)) :
                     /\ fut.sent + n <= Len(wbuf)
                     /\ pipe' = pipe \o SubSeq(wbuf, fut.sent + 1, fut.sent + n)
                     /\ fut' = [fut EXCEPT !.sent = @ + n]
-               /\ UNCHANGED <<next, wbuf, rcvd>>
+               /\ UNCHANGED <<next, wbuf, rcvd, closed, ended>>
 FlushDone == /\ fut.on /\ fut.sent = Len(wbuf)
-             /\ wbuf' = <<>> /\ fut' = [on |-> FALSE, sent |-> 0] /\ UNCHANGED <<next, pipe, rcvd>>
-CancelSend == /\ AllowCancel /\ fut.on /\ fut' = [on |-> FALSE, sent |-> 0] /\ UNCHANGED <<next, wbuf, pipe, rcvd>>
-PeerRead == /\ pipe # <<>> /\ \E n \in 1..Len(pipe) : rcvd' = rcvd \o SubSeq(pipe, 1, n) /\ pipe' = SubSeq(pipe, n + 1, Len(pipe))
-            /\ UNCHANGED <<next, wbuf, fut>>
-Next == SendStart \/ KernelWrite \/ FlushDone \/ CancelSend \/ PeerRead
+             /\ wbuf' = <<>> /\ fut' = [on |-> FALSE, sent |-> 0] /\ UNCHANGED <<next, pipe, rcvd, closed, ended>>
+CancelSend == /\ AllowCancel /\ fut.on /\ fut' = [on |-> FALSE, sent |-> 0] /\ UNCHANGED <<next, wbuf, pipe, rcvd, closed, ended>>
+PeerRead == /\ pipe # <<>> /\ ~ended /\ \E n \in 1..Len(pipe) : rcvd' = rcvd \o SubSeq(pipe, 1, n) /\ pipe' = SubSeq(pipe, n + 1, Len(pipe))
+            /\ UNCHANGED <<next, wbuf, fut, closed, ended>>
+\* the writer's end goes away between two sends (whatever it had not read itself is discarded by the kernel,
+\* which makes the end visible to the peer as a reset instead of an orderly end of stream)
+Hangup == /\ ~fut.on /\ ~closed /\ closed' = TRUE /\ UNCHANGED <<next, wbuf, fut, pipe, rcvd, ended>>
+\* the kernel reports the end only behind the data that was queued before it
+PeerSeesEnd == /\ closed /\ pipe = <<>> /\ ~ended /\ ended' = TRUE /\ UNCHANGED <<next, wbuf, fut, pipe, rcvd, closed>>
+Next == SendStart \/ KernelWrite \/ FlushDone \/ CancelSend \/ PeerRead \/ Hangup \/ PeerSeesEnd
 Spec == Init /\ [][Next]_vars
 \* the peer sees the sent messages intact and in order: whole frames, each at most once
 Intact == IsPrefix(rcvd \o pipe, All(1))
 \* without cancellation everything sent eventually arrives
 AllArrives == (next > Len(MsgLens) /\ ~fut.on /\ pipe = <<>>) => rcvd = All(1)
+\* when the reader learns of the end it has every frame whose send completed
+RECURSIVE Upto(_, _)
+Upto(i, n) == IF i > n THEN <<>> ELSE BytesOf(i) \o Upto(i + 1, n)
+EndBehindData == (ended /\ ~AllowCancel) => rcvd = Upto(1, next - 1)
 =============================================================================
